@@ -2,7 +2,7 @@
 # usage: tools/confirm_seed.sh <out dir of a sub-agent> <property id> <A|B>
 # Confirms a seeded change in a scratch worktree of /repo (outside /repo and /verif) and archives it under /verif/seeded/.
 set -u
-out="$1"; pid="$2"; x="$3"
+out="$1"; pid="$2"; x="$3"; tgt="${4:-$3}"
 export GOFLAGS=-mod=mod GOPROXY=off GOSUMDB=off GOTOOLCHAIN=local
 wt=$(mktemp -d /tmp/seedwt.XXXXXX); rmdir "$wt"
 git -C /repo worktree add -q --detach "$wt" HEAD || exit 2
@@ -25,7 +25,7 @@ case "$clean" in ok*) ;; *) ok=1;; esac
 case "$mut" in FAIL*|*FAIL*) ;; *) ok=1;; esac
 [ "$suite" = "0" ] || ok=1
 if [ $ok = 0 ]; then
-  d=/verif/seeded/$pid-$x; mkdir -p "$d"
+  d=/verif/seeded/$pid-$tgt; mkdir -p "$d"
   cp "$out/$x.patch.diff" "$d/patch.diff"; cp "$demo" "$d/demo_test.go"; cp "$out/$x.notes.md" "$d/notes.md"
   echo "CONFIRMED $pid/$x"
 else
